@@ -4,7 +4,9 @@
    (the last token holds n mod 7 bytes when that is not 0).
 
    Case layouts (first token = tag, zigzag-encoded by the harness: 1 -> 2, 2 -> 4, 3 -> 6):
-   1 WAY   : nodes (list of ids) | tags (list of key value) | observed (0 false, 1 true, 2 panic)
+   1 WAY   : way nodes | tags (list of key value) | observed (0 false, 1 true, 2 panic)
+             a way node is  id 0  (bare ref: version, changeset, lat, lon all zero)
+                        or  id 1 version changeset lat lon  (annotated; lat/lon in 1e-7 degree)
    2 REL   : tags | observed (0 false, 1 true, 2 panic)
    4 FIND  : tags | key | observed string (Tags.Find)
    3 TABLE : the three condition names at run time (all, whitelist, blacklist)
@@ -59,12 +61,20 @@ Definition obs_code (r : res bool) : Z :=
 Definition b2z (b : bool) : Z := if b then 1 else 0.
 
 (* ---- WAY ---- *)
+Definition pwaynode : P waynode :=
+  id <- pint ;; ann <- pbool ;;
+  if ann then
+    (v <- pint ;; cs <- pint ;; lat <- pint ;; lon <- pint ;; ret (mkWayNode id v cs lat lon))
+  else ret (mkWayNode id 0 0 0 0).
+
+(* judgement 2 demands that closedness is decided by the node REFS alone: the spec sees
+   [map wid nodes] and nothing else of the way nodes *)
 Definition check_way : P (list Z) :=
-  nodes <- plist pint ;; ts <- ptags ;; obs <- pint ;;
-  let j1 := obs_code (way_polygon RT nodes ts) =? obs in
+  nodes <- plist pwaynode ;; ts <- ptags ;; obs <- pint ;;
+  let j1 := obs_code (way_polygon_wn RT nodes ts) =? obs in
   let j2 :=
     (obs <? 2) &&
-    (if nodupb (keys ts) then obs =? b2z (spec_polygonb nodes (lookup ts)) else true) in
+    (if nodupb (keys ts) then obs =? b2z (spec_polygonb (map wid nodes) (lookup ts)) else true) in
   ret (code_if j1 1 ++ code_if j2 2)%list.
 
 (* ---- REL ---- *)
